@@ -19,15 +19,16 @@ RULE = ("One case = one generated trajectory (format in {LAMMPS dump, CP2K xyz, 
         "bytes, poll, write the rest, poll as often as the engines do after the program ended), (ii) seeded "
         "multi-cut schedules with a seeded number of polls per cut. Oracle: no exception; everything "
         "returned so far is a prefix of the written frames with exactly the written values and never more "
-        "frames than are completely on disk; nothing twice; everything delivered at the end. evaluations "
+        "frames than are completely on disk; nothing twice; everything delivered by the single poll that "
+        "follows the end of the writer. evaluations "
         "= (trajectory, cut schedule) executions; distinct_nontrivial = distinct (format, variant, kind of "
         "line and token position the cut falls in).")
 ASSUMPTIONS = [
     "a text frame of which every byte except its final newline is on disk counts as completely on disk "
     "(all of its values are there; the LAMMPS reader accepts it by design through its trailing-id sentinel)",
     "the writer is append-only (no rewriting of bytes already written), as the three programs are",
-    "after the program has ended the engines poll their reader up to two more times: the rest must be "
-    "delivered within those polls (TRR: by the read-remaining path after the process exited)",
+    "after the program has ended the LAMMPS / CP2K loops read exactly once more: that one poll must "
+    "deliver everything on disk (TRR: the read-remaining path after the process exited)",
 ]
 REAL = ["infretis.classes.engines.engineparts.ReadAndProcessOnTheFly, lammpstrj_reader, xyz_reader",
         "infretis.classes.engines.gromacs.GromacsRunner.start/get_gromacs_frames/read_remaining_trr/"
@@ -187,11 +188,13 @@ def run_text_schedule(meta, data, ends, expected, cuts, polls, scratch):
         for p in range(polls[i] if i < len(polls) else 1):
             poll(f"after {w.pos}/{len(data)} bytes")
     w.write_all()
-    for p in range(2):
-        poll(f"after the writer finished (poll {p+1})")
+    # the LAMMPS / CP2K polling loops read exactly once more after they notice that the program has
+    # ended, so one poll must deliver everything that is on disk
+    poll("after the writer finished (the one poll the engines still make)")
     if got != len(expected):
-        raise Violation("frames_not_delivered", f"{got} of {len(expected)} frames delivered after the writer "
-                        f"finished and two more polls")
+        raise Violation("frames_not_delivered", f"{got} of {len(expected)} frames delivered by the poll "
+                        f"after the writer finished")
+    poll("a further poll (must return nothing new)")
     return npolls
 
 
